@@ -256,7 +256,7 @@ func runC20(c *eng.Ctx, tier string) {
 	if loop == nil {
 		c.Undecided("R-C20-3", fApply, fApply.Pos(), "loop over the fields", "not found")
 	} else {
-		hit, path := eng.Search(fApply, loop.Body.Instrs[0], nil, func(x ssa.Instruction) bool { return x.Block() == loop.Header }, func(x ssa.Instruction) bool {
+		hit, path := eng.SearchBlock(fApply, loop.Body, nil, func(x ssa.Instruction) bool { return x.Block() == loop.Header }, func(x ssa.Instruction) bool {
 			return eng.IsExit(x) || x.Block() == loop.Done
 		})
 		c.Check(hit == nil, "R-C20-3", fApply, loop.Body.Instrs[0].Pos(), "loop of Fields.Apply", "no return or break inside the loop: a failure on one field does not prevent the others from being filled", func() string {
@@ -448,7 +448,7 @@ func c20Types(c *eng.Ctx, parse, apply *ssa.Function) {
 			}
 			return true
 		}
-		hit, path := eng.Search(parse, first.Block().Instrs[0], allFalse, nil, func(x ssa.Instruction) bool {
+		hit, path := eng.SearchBlock(parse, first.Block(), allFalse, nil, func(x ssa.Instruction) bool {
 			// reaching the recording of the field (append to the result) or the next field without an error
 			if args, ok := eng.BuiltinCall(x, "append"); ok {
 				if sl, isSl := args[0].Type().Underlying().(*types.Slice); isSl && eng.IsNamed(sl.Elem(), setecPkg, "fieldInfo") {
